@@ -73,7 +73,7 @@ def real(key, mode):
     return ph(s64, s8), ph(b64, b8)
 
 
-def fn_entry(key, named, ensures=None, proof=None):
+def fn_entry(key, named, ensures=None, proof=None, mpreq=None):
     """overlay text of one trait-impl fn: real code + return binder + ensures + a proof block at the top of the body"""
     per = {m: real(key, m) for m in ('dbg', 'rel')}
     modes = [None] if per['dbg'] == per['rel'] else ['dbg', 'rel']
@@ -87,6 +87,9 @@ def fn_entry(key, named, ensures=None, proof=None):
         else:
             sigtxt = ' '.join(sig)
         opts = f'module={MODULE}' + (f' mode={m}' if m else '')
+        if mpreq:
+            # must-panic dual of the by-value form (DESIGN 3.4): returns only if the inherent no-panic condition held
+            opts += ' mp mpreq=' + mpreq.replace(' ', '~')
         txt = f'//! fn {key} [{opts}]\n{sigtxt}\n'
         if ensures:
             txt += f'    {GO} ensures {ensures} {GC}\n'
@@ -138,7 +141,7 @@ def gen_binops(t):
         for key, sty, rty, a, b, named, inherent in forms:
             s += specimpl(G, Tr, rty, sty, m, f'{a}.bn_ops_{m}_req({b})', f'{a}.bn_ops_{m}_res({b})', TN)
             fns.append(fn_entry(key, named, f'{a}.bn_ops_{m}_post({b}, r)' if named else None,
-                                canon(t, kind) if inherent else None))
+                                canon(t, kind) if inherent else None, mpreq=(f'{a}.bn_ops_{m}_req({b})' if inherent else None)))
         for key, rty, b in [(f'impl({Tr}Assign<{TN}>for{TN})::{m}_assign', TN, 'rhs'),
                             (f'impl({Tr}Assign<&{TN}>for{TN})::{m}_assign', f'&{TN}', '(*rhs)')]:
             s += specimpl(G, Tr + 'Assign', rty, TN, m + '_assign', f'(*self).bn_ops_{m}_req({b})', f'(*self).bn_ops_{m}_res({b})', TN, assign=True)
@@ -153,7 +156,7 @@ def gen_binops(t):
             s += f'    open spec fn obeys_{m}_spec() -> bool {{ true }}\n'
             s += f'    open spec fn {m}_req(self) -> bool {{ {a}.bn_ops_{m}_req() }}\n'
             s += f'    open spec fn {m}_spec(self) -> {TN} {{ {a}.bn_ops_{m}_res() }}\n}}\n'
-            fns.append(fn_entry(key, True, f'{a}.bn_ops_{m}_post(r)', canon(t, kind, a, a)))
+            fns.append(fn_entry(key, True, f'{a}.bn_ops_{m}_post(r)', canon(t, kind, a, a), mpreq=(f'{a}.bn_ops_{m}_req()' if a == 'self' else None)))
         specs.append(f'//! spec bn_ops_s_{t}_{m}\n' + s)
     return ''.join(specs) + ''.join(fns)
 
@@ -190,7 +193,7 @@ def gen_shifts(t, Tr, m):
             if inh_named or inherent or not named:
                 named = named and inh_named
                 fns.append(fn_entry(key, named, f'{a}.bn_ops_{m}_post({amt(b)}, r)' if named else None,
-                                    canon(t, 'val') if inherent else None))
+                                    canon(t, 'val') if inherent else None, mpreq=(req(b) if inherent else None)))
             else:
                 # value-level postcondition recovered from `r == *_spec` by the existence lemma bn_lemma_ops_val_*
                 fns.append(fn_entry(key, True, f'{a}.bn_ops_{m}_vpost({amt(b)}, r)', f'bn_lemma_ops_val_{t}::<N>({a}, {a}, {amt(b)});'))
